@@ -559,6 +559,12 @@ func judgeC07(c *fw.Case, o *splitObs) {
 	if o.err != nil {
 		return
 	}
+	if len(o.parts) == 0 {
+		// neither parts nor an error: "a message needing more than 255 parts is refused with an error", any other is
+		// returned as one part or several
+		c.Failf("no-parts-and-no-error/"+o.entry+"/"+kind.String(), "no part and no error came back for a text of %d units (whole-character parts %d, blind count %d)\n%s", total, greedy, blind, o.ctx())
+		return
+	}
 	if len(o.parts) == 1 {
 		sz := len(o.parts[0])
 		if kind == kGSMPacked {
